@@ -154,7 +154,7 @@ theorem C08_partial (p : Program) :
     unfold AnaOKB at hok
     rw [List.all_eq_true] at hok
     have hrd := (T2_function hg hn f (hok f (by rw [← fns_eq_fnDecls]; exact hf)) hfe).2
-    exact P_C08_stack_F7 hrd i t ht
+    exact P_C08_stack_F7 hrd.1 i t ht
   · cases ht
 
 /-- the full statement (no register is read before it is written) fails on the current tree: the
